@@ -25,6 +25,9 @@ REMOVE_KEYS = {
     "alloc::collections::btree::set::BTreeSet::clear", "alloc::collections::btree::map::BTreeMap::clear",
     "alloc::vec::Vec::clear", "alloc::vec::Vec::pop", "alloc::collections::btree::set::BTreeSet::retain",
     "alloc::collections::btree::map::BTreeMap::retain", "alloc::collections::btree::set::BTreeSet::pop_first",
+    "alloc::collections::btree::set::BTreeSet::take", "alloc::collections::btree::map::BTreeMap::remove_entry",
+    "alloc::collections::btree::set::BTreeSet::pop_last", "alloc::collections::btree::map::BTreeMap::pop_first",
+    "alloc::collections::btree::map::BTreeMap::pop_last",
 }
 ENTRY_KEY = "alloc::collections::btree::map::BTreeMap::entry"
 # std combinators that do nothing but call the closure they are given on the receiver's payload
@@ -59,6 +62,8 @@ def under_self(an, term):
         return under_self(an, t[3][0])
     if t[0] == "site":
         return None
+    if t[0] == "field" and t[2] == "0" and t[1][0] == "dc" and t[1][2] == "Some":
+        return under_self(an, t[1][1])      # the reference inside Some(..) returned by get_mut(..)
     r = an.region_of_pointer(t)
     return r if r and r.startswith("A1") else None
 
@@ -232,6 +237,9 @@ def removal_endpoints(crate, an, fx, w):
         E = value_at(an, ev["args"][1])
         if c is not None:
             return idx, E
+        if a0[0] == "field" and a0[2] == "0" and a0[1][0] == "dc" and a0[1][2] == "Some" and a0[1][1][0] == "call" \
+                and a0[1][1][1].endswith("BTreeMap::get_mut") and len(a0[1][1][3]) == 2:
+            return value_at(an, a0[1][1][3][1]), E      # row of key u: get_mut(&u)
         if E[0] == "agg" and len(E[3]) == 2:
             return E[3][0], E[3][1]
     return None
